@@ -71,17 +71,19 @@ Example ex_static_match :
   /\ direct_obs (roots_lookup (static_fuel (S2B "/b/c")) (t_roots ex_static_txn) m_get [] (S2B "/b/c") false [] []) = None.
 Proof. vm_compute. repeat split. Qed.
 
-(* ---- stages 2 and 3: + named parameters {name} (full-segment and mid-segment), + suffix catch-all
-   *{name}; backtracking through the skipped-node stack ----
-   invariant pwf: every key is a non-empty sequence of whole tokens (static bytes other than
-   '{' '*', {name}, and a final *{name} only on a leaf without children); sibling keys start with
-   pairwise distinct bytes (so at most one parameter child and one catch-all child per node); a
-   leaf's pattern is the concatenation of the keys on its branch.
-   Fuel bound m2_fuel t = ncost t + 4 (a function of the tree only).
-   [plain t] = no catch-all anywhere in the tree (stage 2); [nostar path] = no '*' byte in the request. *)
+(* ---- stages 2-4: + named parameters {name} (full-segment and mid-segment), + catch-all *{name} in
+   suffix position (also on a leaf that has a "/..." child) and in infix position (sub-lookups on the
+   truncated copy of the node, "inode"); backtracking through the skipped-node stack ----
+   invariant pwf: every key is a non-empty sequence of whole tokens (static bytes other than '{' '*',
+   {name}, *{name}; a catch-all may end a key only on a leaf whose children, if any, are one "/..."
+   child); sibling keys start with pairwise distinct bytes (so at most one parameter child and one
+   catch-all child per node); a leaf's pattern is the concatenation of the keys on its branch.
+   Fuel bound m2_fuel path t = ncost |path| t + 8.
+   [plain t] = no catch-all anywhere in the tree; [okpath path] = no '*' byte and no empty segment. *)
 
-(* M1 = M2: the explicit skipped-node stack is the DFS continuation (no side condition) *)
-Theorem C01_M1_eq_M2 : forall t path lazy fuel, pwf [] t -> m2_fuel t <= fuel ->
+(* M1 = M2: the explicit skipped-node stack is the DFS continuation, the catch-all loop is [scan]
+   (no side condition on the request) *)
+Theorem C01_M1_eq_M2 : forall t path lazy fuel, pwf [] t -> m2_fuel path t <= fuel ->
   match m2 t path with
   | Some (l, vals) => found_as (lookup_by_path fuel t path lazy [] []) l (addp lazy [] vals)
   | None => nodirect2 (lookup_by_path fuel t path lazy [] [])
@@ -91,44 +93,45 @@ Print Assumptions C01_M1_eq_M2.
 
 (* M2 = S *)
 Theorem C01_M2_eq_Spec : forall t host path, pwf [] t -> starts_with "/" (nkey t) = true ->
-  nostar path = true \/ plain t = true ->
+  okpath path = true \/ plain t = true ->
   select_in (map rpat (routes_of_node t)) host path false = res_of [] (m2 t path).
 Proof. exact spec_eq_m2. Qed.
 Print Assumptions C01_M2_eq_Spec.
 
-Theorem C01_param_total : forall t path lazy fuel, pwf [] t -> m2_fuel t <= fuel ->
+Theorem C01_param_total : forall t path lazy fuel, pwf [] t -> m2_fuel path t <= fuel ->
   exists n tp pss tpss, lookup_by_path fuel t path lazy [] [] = Found n tp pss tpss.
 Proof. exact lbp_param_total. Qed.
 Print Assumptions C01_param_total.
 
 (* lazy = true (Reverse, Iter.Reverse): same route *)
 Theorem C01_param_lazy_route : forall t host path fuel lazy,
-  pwf [] t -> starts_with "/" (nkey t) = true -> m2_fuel t <= fuel ->
-  nostar path = true \/ plain t = true ->
+  pwf [] t -> starts_with "/" (nkey t) = true -> m2_fuel path t <= fuel ->
+  okpath path = true \/ plain t = true ->
   option_map fst (direct_obs (lookup_by_path fuel t path lazy [] [])) =
   option_map fst (spec_direct (map rpat (routes_of_node t)) host path).
 Proof. exact lbp_param_eq_spec_lazy. Qed.
 Print Assumptions C01_param_lazy_route.
 
-(* the stage reached: M1 = S (route and parameter values) on trees with static text, named
-   parameters and suffix catch-alls.  Stage 2 (plain t): every request path.  Stage 3: request
-   paths without a '*' byte — without that condition the statement is FALSE, see below. *)
+(* the stage reached (stage 4): M1 = S (route and parameter values) on path-only trees with static
+   text, named parameters and catch-alls.  Trees without catch-all (plain t): every request path.
+   Otherwise: request paths without '*' byte and without empty segment — without these conditions the
+   statement is FALSE, see the two refutations below. *)
 Theorem M1_eq_Spec_partial : forall r m t host path fuel,
-  path_only_root r m t -> pwf [] t -> m2_fuel t <= fuel ->
-  nostar path = true \/ plain t = true ->
+  path_only_root r m t -> pwf [] t -> m2_fuel path t <= fuel ->
+  okpath path = true \/ plain t = true ->
   direct_obs (roots_lookup fuel r m host path false [] []) =
   sres_direct (spec_lookup (method_patterns r m) host path).
 Proof. exact roots_lookup_param_eq_spec. Qed.
 Print Assumptions M1_eq_Spec_partial.
 
 (* non-vacuity: backtracking is exercised (static child "a" fails, parameter child matches) *)
-Definition ex_fuel : nat := N.to_nat 40000%N.
+Definition ex_fuel : nat := N.to_nat 400000%N.
 Definition ex_param_txn : txn :=
   build [mk_ri "/a" 1 0; mk_ri "/ab" 2 0; mk_ri "/ab/c" 3 0; mk_ri "/{x}" 4 1; mk_ri "/a/{y}/b" 5 1;
          mk_ri "/a{z}/c" 6 1; mk_ri "/{x}/d/{w}" 7 2].
 Example ex_param_hyps :
   path_only_root (t_roots ex_param_txn) m_get (path_root ex_param_txn) /\ pwf [] (path_root ex_param_txn)
-  /\ m2_fuel (path_root ex_param_txn) <= ex_fuel /\ plain (path_root ex_param_txn) = true.
+  /\ m2_fuel (S2B "/ab/d/e") (path_root ex_param_txn) <= ex_fuel /\ plain (path_root ex_param_txn) = true.
 Proof.
   split; [|split; [|split]].
   - exists 0, (Node m_get None [path_root ex_param_txn]). vm_compute. repeat split.
@@ -148,13 +151,15 @@ Example ex_param_match :
   /\ ex_lookup "/ab/c" = Some (S2B "/ab/c", []) /\ ex_lookup "/a/q/c" = None /\ ex_spec "/a/q/c" = None.
 Proof. vm_compute. repeat split. Qed.
 
-(* non-vacuity, stage 3: static child, parameter child and catch-all child at the same node *)
+(* non-vacuity, stages 3-4: static, parameter and catch-all children at one node; infix catch-alls
+   sharing a prefix; a catch-all leaf with a "/..." child *)
 Definition ex_catch_txn : txn :=
-  build [mk_ri "/a/b" 1 0; mk_ri "/a/{y}/c" 2 1; mk_ri "/a/*{w}" 3 1; mk_ri "/{x}" 4 1; mk_ri "/f=*{p}" 5 1].
+  build [mk_ri "/a/b" 1 0; mk_ri "/a/*{w}/x" 2 1; mk_ri "/a/*{w}/y/{z}" 3 2; mk_ri "/f/*{p}" 4 1;
+         mk_ri "/f/*{p}/end" 5 1; mk_ri "/{x}" 6 1; mk_ri "/a/{y}/c" 7 1; mk_ri "/g=*{q}" 8 1].
 Example ex_catch_hyps :
   path_only_root (t_roots ex_catch_txn) m_get (path_root ex_catch_txn) /\ pwf [] (path_root ex_catch_txn)
-  /\ m2_fuel (path_root ex_catch_txn) <= ex_fuel /\ plain (path_root ex_catch_txn) = false
-  /\ nostar (S2B "/a/b/d") = true.
+  /\ m2_fuel (S2B "/a/q/r/s/y/zz") (path_root ex_catch_txn) <= ex_fuel /\ plain (path_root ex_catch_txn) = false
+  /\ okpath (S2B "/a/q/r/s/y/zz") = true.
 Proof.
   split; [|split; [|split; [|split]]].
   - exists 0, (Node m_get None [path_root ex_catch_txn]). vm_compute. repeat split.
@@ -168,19 +173,24 @@ Definition ex_lookup3 (p : string) :=
 Definition ex_spec3 (p : string) :=
   sres_direct (spec_lookup (method_patterns (t_roots ex_catch_txn) m_get) [] (S2B p)).
 Example ex_catch_match :
-  ex_lookup3 "/a/b/d" = Some (S2B "/a/*{w}", [(S2B "w", S2B "b/d")]) /\ ex_spec3 "/a/b/d" = ex_lookup3 "/a/b/d"
+  ex_lookup3 "/a/q/r/s/y/zz" = Some (S2B "/a/*{w}/y/{z}", [(S2B "w", S2B "q/r/s"); (S2B "z", S2B "zz")])
+  /\ ex_spec3 "/a/q/r/s/y/zz" = ex_lookup3 "/a/q/r/s/y/zz"
   /\ ex_lookup3 "/a/q/c" = Some (S2B "/a/{y}/c", [(S2B "y", S2B "q")]) /\ ex_spec3 "/a/q/c" = ex_lookup3 "/a/q/c"
-  /\ ex_lookup3 "/f=/x/y" = Some (S2B "/f=*{p}", [(S2B "p", S2B "/x/y")]) /\ ex_spec3 "/f=/x/y" = ex_lookup3 "/f=/x/y"
+  /\ ex_lookup3 "/f/u/v/end" = Some (S2B "/f/*{p}/end", [(S2B "p", S2B "u/v")]) /\ ex_spec3 "/f/u/v/end" = ex_lookup3 "/f/u/v/end"
+  /\ ex_lookup3 "/f/u/v" = Some (S2B "/f/*{p}", [(S2B "p", S2B "u/v")]) /\ ex_spec3 "/f/u/v" = ex_lookup3 "/f/u/v"
+  /\ ex_lookup3 "/g=/x/y" = Some (S2B "/g=*{q}", [(S2B "q", S2B "/x/y")]) /\ ex_spec3 "/g=/x/y" = ex_lookup3 "/g=/x/y"
+  /\ ex_lookup3 "/a/q/x/x" = Some (S2B "/a/*{w}/x", [(S2B "w", S2B "q/x")]) /\ ex_spec3 "/a/q/x/x" = ex_lookup3 "/a/q/x/x"
   /\ ex_lookup3 "/a/" = None /\ ex_spec3 "/a/" = None.
 Proof. vm_compute. repeat split. Qed.
 
-(* ---- REFUTED without the side condition: a request byte '*' is looked up as a static edge
-   (node.go:456-463), so a catch-all child is tried BEFORE the parameter child.  Routes /{x} and
-   /*{w}, request /*abc: M1 (and fox) select /*{w}, the specification selects /{x}. ---- *)
+(* ---- REFUTED without the side conditions ----
+   (1) a request byte '*' is looked up as a static edge (node.go:456-463), so a catch-all child is
+       tried BEFORE the parameter child: routes /{x} and /*{w}, request /*abc: M1 (and fox) select
+       /*{w}, the specification selects /{x}. *)
 Definition wit_txn : txn := build [mk_ri "/{x}" 1 1; mk_ri "/*{w}" 2 1].
 Theorem M1_eq_Spec_catchall_refuted :
   exists r m t host path fuel,
-    path_only_root r m t /\ pwf [] t /\ m2_fuel t <= fuel /\
+    path_only_root r m t /\ pwf [] t /\ m2_fuel path t <= fuel /\
     direct_obs (roots_lookup fuel r m host path false [] []) = Some (S2B "/*{w}", [(S2B "w", S2B "*abc")]) /\
     sres_direct (spec_lookup (method_patterns r m) host path) = Some (S2B "/{x}", [(S2B "x", S2B "*abc")]).
 Proof.
@@ -193,3 +203,23 @@ Proof.
   - vm_compute. reflexivity.
 Qed.
 Print Assumptions M1_eq_Spec_catchall_refuted.
+
+(* (2) the catch-all loop stops at an empty segment, the specification does not: route /*{w}/x,
+       request /a//b/x: M1 (and fox: 404) find nothing, the specification selects the route with
+       w = "a//b". *)
+Definition wit2_txn : txn := build [mk_ri "/*{w}/x" 1 1].
+Theorem M1_eq_Spec_emptyseg_refuted :
+  exists r m t host path fuel,
+    path_only_root r m t /\ pwf [] t /\ m2_fuel path t <= fuel /\
+    direct_obs (roots_lookup fuel r m host path false [] []) = None /\
+    sres_direct (spec_lookup (method_patterns r m) host path) = Some (S2B "/*{w}/x", [(S2B "w", S2B "a//b")]).
+Proof.
+  exists (t_roots wit2_txn), m_get, (path_root wit2_txn), [], (S2B "/a//b/x"), ex_fuel.
+  split; [|split; [|split; [|split]]].
+  - exists 0, (Node m_get None [path_root wit2_txn]). vm_compute. repeat split.
+  - apply pwfb_sound. vm_compute. reflexivity.
+  - apply Nat.leb_le. vm_compute. reflexivity.
+  - vm_compute. reflexivity.
+  - vm_compute. reflexivity.
+Qed.
+Print Assumptions M1_eq_Spec_emptyseg_refuted.
